@@ -516,7 +516,7 @@ def run_case(ctx, i, rng):
     try:
         n = gen_ir.generate(rng, profile="edif" if i % 3 else "any", style="mixed", ndefs=rng.randint(3, 7), share=0.5,
                             max_children=4, outside=True, big=(i % 24 == 5))
-        # (the hierarchical queries enumerate the ELABORATED design: deep sharing multiplies it; cases beyond 15000 elaborated
+        # (the hierarchical queries enumerate the ELABORATED design: deep sharing multiplies it; cases beyond 5000 elaborated
         #  objects are discarded so that every case stays inside its time slot - counted, and decided by size, not by the clock)
         memo_ = {}
 
@@ -526,7 +526,7 @@ def run_case(ctx, i, rng):
                 memo_[id(d_)] = 1 + len(d_.cables) + sum(len(c_.wires) for c_ in d_.cables) + sum(len(p_.pins) for p_ in d_.ports) + \
                     sum(elab_size(c_.reference) for c_ in d_.children if c_.reference is not None)
             return memo_[id(d_)]
-        if n.top_instance is not None and n.top_instance.reference is not None and elab_size(n.top_instance.reference) > 15000:
+        if n.top_instance is not None and n.top_instance.reference is not None and elab_size(n.top_instance.reference) > 5000:
             ctx.count("discarded_too_large")
             return
         graft = None
